@@ -229,3 +229,104 @@ func (v nestingVisitor) VisitMany(ns []ast.Node) ast.Visitor {
 }
 func (v nestingVisitor) Field(name string) ast.Visitor { return nestingVisitor{v.inner.Field(name).(recVisitor)} }
 func (v nestingVisitor) Index(i int) ast.Visitor       { return nestingVisitor{v.inner.Index(i).(recVisitor)} }
+
+// expr-toks: one input per line (hex) -> "hex => kind,raw,str,pos,end,base;..." (the public lexer's tokens incl. <eof>), or LEXERR
+// expr-go:   one input per line (hex) -> "hex => <number of errors> <dump of the returned expression>"
+func init() {
+	commands["expr-toks"] = func(args []string) {
+		stdinLines(func(line string) {
+			h := strings.TrimSpace(line)
+			x := unhx(h)
+			toks, ok, bad := lexPublic(x)
+			if !ok || bad != "" {
+				fmt.Fprintf(out, "%s => LEXERR\n", h)
+				return
+			}
+			var sb strings.Builder
+			for _, t := range toks {
+				fmt.Fprintf(&sb, "%s,%s,%s,%d,%d,%d;", hx(string(t.Kind)), hx(t.Raw), hx(t.AsString), t.Pos, t.End, t.Base)
+			}
+			fmt.Fprintf(out, "%s => %s\n", h, sb.String())
+		})
+	}
+	commands["expr-go"] = func(args []string) {
+		e := entryByName("ParseExpr")
+		stdinLines(func(line string) {
+			h := strings.TrimSpace(line)
+			r := callEntry(e, "", unhx(h))
+			if r.panicked {
+				fmt.Fprintf(out, "%s => PANIC %s\n", h, r.panicVal)
+				return
+			}
+			fmt.Fprintf(out, "%s => %d %s\n", h, len(allErrors(r.err)), dumpNode(r.nodes[0], posExact, 0))
+		})
+	}
+}
+
+// expr-shape: the grouping of the parsed expression in a compact notation (operators, ParenExpr, no positions); ERR on error
+func exprShape(n ast.Node) string {
+	switch e := n.(type) {
+	case *ast.BinaryExpr:
+		return fmt.Sprintf("(%s %s %s)", strings.ReplaceAll(string(e.Op), " ", "_"), exprShape(e.Left), exprShape(e.Right))
+	case *ast.UnaryExpr:
+		return fmt.Sprintf("(%s %s)", e.Op, exprShape(e.Expr))
+	case *ast.ParenExpr:
+		return fmt.Sprintf("(paren %s)", exprShape(e.Expr))
+	case *ast.IsNullExpr:
+		return fmt.Sprintf("(is%s_NULL %s)", map[bool]string{true: "_not", false: ""}[e.Not], exprShape(e.Left))
+	case *ast.IsBoolExpr:
+		return fmt.Sprintf("(is%s_%s %s)", map[bool]string{true: "_not", false: ""}[e.Not], strings.ToUpper(fmt.Sprint(e.Right)), exprShape(e.Left))
+	case *ast.BetweenExpr:
+		return fmt.Sprintf("(%sbetween %s %s %s)", map[bool]string{true: "not_", false: ""}[e.Not], exprShape(e.Left), exprShape(e.RightStart), exprShape(e.RightEnd))
+	case *ast.InExpr:
+		s := fmt.Sprintf("(%sin %s", map[bool]string{true: "not_", false: ""}[e.Not], exprShape(e.Left))
+		if v, ok := e.Right.(*ast.ValuesInCondition); ok {
+			for _, x := range v.Exprs {
+				s += " " + exprShape(x)
+			}
+		} else {
+			s += " ?"
+		}
+		return s + ")"
+	case *ast.SelectorExpr:
+		return fmt.Sprintf("(. %s %s)", exprShape(e.Expr), e.Ident.Name)
+	case *ast.IndexExpr:
+		ix := "?"
+		if a, ok := e.Index.(*ast.ExprArg); ok {
+			ix = exprShape(a.Expr)
+		}
+		return fmt.Sprintf("([] %s %s)", exprShape(e.Expr), ix)
+	case *ast.Path:
+		var ps []string
+		for _, i := range e.Idents {
+			ps = append(ps, i.Name)
+		}
+		return strings.Join(ps, ".")
+	case *ast.Ident:
+		return e.Name
+	}
+	if isNilNode(n) {
+		return "nil"
+	}
+	return n.SQL()
+}
+
+func init() {
+	commands["expr-shape"] = func(args []string) {
+		e := entryByName("ParseExpr")
+		stdinLines(func(line string) {
+			h := strings.TrimSpace(line)
+			r := callEntry(e, "", unhx(h))
+			if r.panicked || r.err != nil {
+				fmt.Fprintf(out, "%s => ERR %v %s\n", h, r.err, r.panicVal)
+				return
+			}
+			s := ""
+			if why := safely("shape", func() { s = exprShape(r.nodes[0]) }); why != "" {
+				s = "PANIC " + why
+			}
+			// SQL() of the result must need no parenthesis that was not in the source, and add none
+			fmt.Fprintf(out, "%s => %s | %s\n", h, s, hx(r.nodes[0].SQL()))
+		})
+	}
+}
